@@ -35,6 +35,14 @@ def gen_base(rng):
         fields.append(decl)
         good = [c for c in accept if c != "" and c == c.strip()]
         examples.append(rng.choice(good) if good and rng.random() < 0.4 else "")
+    if kind in ("delimited", "fixed") and rng.random() < 0.3:
+        # few, small length texts shared by many CIDs of both text formats: an Integer field declared by its length only
+        digits = rng.choice([1, 2, 3])
+        decl = {"name": "len_only_%d" % nfields, "type": "Integer", "empty": False, "length": str(digits), "rule": ""}
+        pool = [str(10 ** (digits - 1) if digits > 1 else 5), "9" * digits] + (["7", "4" * max(1, digits - 1)] if kind == "fixed" else ["-" + "1" * (digits - 1)] if digits > 1 else [])
+        good = [c for c in pool if F.expected(decl, {"kind": kind, "dec": dec, "ths": ths, "allowed": None}, c)[0] == F.ACCEPT]
+        fields.append(decl)
+        examples.append(rng.choice(good) if good else "")
     checks = []
     names = [f["name"] for f in fields]
     for c in range(rng.choice([0, 1, 1, 2, 3])):
@@ -83,6 +91,38 @@ def signature(cid):
                        str(getattr(ff, "valid_range", None)) if hasattr(ff, "valid_range") else None])
     checks = [[name, type(cid.check_map[name]).__name__, cid.check_map[name].rule.strip()] for name in cid.check_names]
     return {"settings": settings, "fields": fields, "checks": checks}
+
+
+def sibling(rows, model):
+    """The CID with the same fields declared for the other text format (delimited <-> fixed), or None when the
+    declarations cannot be carried over (a fixed CID needs one exact length per field)."""
+    if model.kind not in ("delimited", "fixed"):
+        return None
+    other = "fixed" if model.kind == "delimited" else "delimited"
+    fmt = dict(model.fmt, kind=other)
+    out = []
+    fields = iter(model.fields)
+    for row in rows:
+        row = list(row)
+        if row[0] == "D":
+            if row[1] == "Format":
+                row[2] = other.capitalize()
+            elif row[1] in ("Item delimiter", "Quote character", "Escape character") and other == "fixed":
+                continue
+        elif row[0] == "F":
+            decl = dict(next(fields))
+            if other == "fixed":
+                if not decl["length"].strip().isdigit() or int(decl["length"]) < 1:
+                    return None
+                if decl["type"] == "Constant":
+                    return None
+            example = row[2]
+            if example and F.expected(decl, fmt, example)[0] != F.ACCEPT:
+                row[2] = ""
+            if decl["type"] == "Integer" and decl["rule"].strip():
+                return None  # rule and length have to be consistent in a format dependent way
+        out.append(row)
+    return out
 
 
 def load(rows):
@@ -339,6 +379,12 @@ def run(ctx):
                           "fields / checks / header of the loaded CID differ from what the rows declare (order preserved?)",
                           expected=[declared, declared_checks, model.header], observed=[observed, observed_checks, base_sig["settings"].get("header")])
             continue
+        # the same field declarations under the other text format, loaded in the same process: what a declaration means
+        # must not depend on declarations seen earlier under another format
+        sib = sibling(rows, model)
+        if sib is not None:
+            ctx.count("sibling-format-cids")
+            check_accept(ctx, sib, "sibling-format")
         for _ in range(4):
             rewritten, applied = rewrite(rng, rows)
             check_accept(ctx, rewritten, "rewrite:" + "+".join(sorted(applied)), base_sig, rows)
